@@ -86,7 +86,7 @@ func isIncOf(v ssa.Value, f *types.Var) bool {
 }
 
 func ruleNPos(w *World, r *Report) {
-	r.rule("N-POS", "for the step types a positional predicate reads its position from (child steps, single descendant step, parenthesised path): position() returns the counter field; in Select every non-nil return is preceded, since the node was obtained, by exactly one increment of the counter; per-parent types zero the counter in the block that pulls a new input node, the parenthesised-path type never zeroes it in Select; the step types implement Test as their own node test; the predicate filter compares a numeric predicate with the position of its own input; position()/last() count siblings through the step's node test on a copy of the context")
+	r.rule("N-POS", "for the step types a positional predicate reads its position from (child steps, single descendant step, parenthesised path): position() returns the counter field; in Select every non-nil return is preceded, since the node was obtained, by exactly one increment of the counter; per-parent types zero the counter in the block that pulls a new input node, the parenthesised-path type never zeroes it in Select; the step types implement Test as their own node test; the predicate filter compares a numeric predicate with the position of its own input; position()/last(), followed by constant propagation on rows of one to three siblings with the context node at every index and every pattern of node-test verdicts, yield 1 + the number of earlier siblings passing the step's node test, resp. the number of siblings passing it, moving only a copy of the context")
 	sel := w.selectMethod()
 	variants := w.axisVariants(nil)
 	want := map[string]string{}
